@@ -26,6 +26,17 @@ data channel (DTP timeout on the simulated clock) at tape-chosen moments, feeds
 and drains it in tape-chosen pieces, closes it mid-transfer, and may drop the
 control connection at a tape-chosen step.
 
+State of the root and refusals by the file system.  The root does not always hold the full tree: in 30% of the runs it is a
+chain of empty directories a/b/c, a single file, or empty (fresh account / emptied upload area; POPULATIONS) while the
+client names the same paths, so that operations fail half-way, create their intermediate directories, or leave every
+directory up to the root itself empty.  New names may lie below new intermediate directories, have a last component
+longer than NAME_MAX or be longer than PATH_MAX as a whole (ENAMETOOLONG after the parents were made).  In 20% of the
+sessions ONE filesystem call that the server makes on a path inside the root (the k-th mkdir / open / rmdir / remove /
+rename / listing, or the k-th of any kind) is refused with a drawn errno (ENOSPC, EACCES, EIO, EROFS, EDQUOT,
+ENAMETOOLONG, EPERM, EBUSY, EMFILE, ENOENT, EEXIST): the audit hook raises the OSError, which aborts the call exactly
+where the system call would have failed.  What the server does next (error reply, clean-up, retry, fallback) is judged
+like everything else: by the paths it touches.
+
 Filesystem audit: one `sys.addaudithook` per process, gated so that it records
 only while code under test runs (open, os.listdir/scandir/mkdir/rmdir/remove/
 rename/symlink/link/chmod/chown/truncate/utime, shutil.*).  HOME is the scratch
@@ -53,6 +64,7 @@ No verdict, counted by probes and logged in the trace:
 Both layers confine paths independently; a change that breaks only one of them leaves C54 true and only moves these
 probes off zero.
 """
+import errno
 import os
 import shutil
 import sys
@@ -105,7 +117,9 @@ COMPONENTS = {
 }
 RULE = ("run = one FTP session (94%): optional pre-login command, login (anonymous or writable user; 15% switch to TYPE A), 1-25 commands from the hostile path grammar "
         "(CWD/CDUP/PWD/SIZE/MDTM/LIST/NLST/RETR/STOR/APPE/DELE/MKD/RMD/RNFR-RNTO with commands in between/working directory removed or renamed under the session/misc), "
-        "one closing relative SIZE, command stream cut by the tape, data channels connected/refused/fed/drained/closed/timed out by the tape, optional control-connection "
+        "one closing relative SIZE; the root starts fully populated (70%) or as a chain of empty directories / one file / empty (fresh account), new names may need new "
+        "intermediate directories or exceed NAME_MAX / PATH_MAX, and in 20% of the sessions the k-th filesystem call of a drawn class on a path inside the root is refused "
+        "with a drawn errno (os_refusal:* faults); command stream cut by the tape, data channels connected/refused/fed/drained/closed/timed out by the tape, optional control-connection "
         "loss; or (6%) 1-8 direct IFTPShell calls with hostile segment lists (instrumentation, no verdict).  non-trivial = after login at least one path argument tried "
         "to leave the root (climbed above it, named a neighbour through '..' - plain or in a decorated spelling: NUL / backslash / %2e / trailing dot or blank / ';' / "
         "control byte / alternative dot / glob inside or next to the '..', 40% of the escapes - an absolute form or '~') and (the command stream was cut at least once or a data "
@@ -122,6 +136,11 @@ ASSUMPTIONS = [
     "decorated spellings of '.'/'..' ('..\\0', '.\\0.', '%2e%2e', '.. ', '..;', ...) are sent because a layer that cleans a segment up AFTER comparing it with '..' turns them into "
     "parent references; the oracle does not care how the server reads them (refusal, literal name inside the root): only the audited paths, the outside snapshot and the "
     "channels are judged, exactly as for plain arguments",
+    "the root's own directory entry counts as inside the root (the oracle's definition: 'the root or below it'): a session that removes its emptied root ('RMD /' on an "
+    "empty root succeeds on the unchanged tree) has touched nothing outside; only a symbolic link appearing under the root's name is reported by outside-unchanged",
+    "an injected refusal (OSError raised by the audit hook for one call on a path inside the root) stands for what the kernel may answer to any such call (disk full, quota, "
+    "read-only remount, permissions, I/O error, a concurrent process creating/removing the entry); it is never injected for paths outside the root or for the interpreter's own "
+    "file accesses, and the refused call is still logged as an (inside) access.  How the server reports the failure gets no verdict",
     "the client cannot name the random scratch directory, so absolute filesystem paths of the neighbours are never sent; FTP-absolute forms ('/..', '//', '/~/') are",
 ]
 LEVEL_NOTE = ("Path arguments and command sequences (histories) are sampled by a seeded grammar: input sampling decides which (cwd, pending rename, argument) combinations reach "
@@ -137,8 +156,35 @@ AUDITED = {"open": 1, "os.listdir": 1, "os.scandir": 1, "os.mkdir": 1, "os.rmdir
 
 # ------------------------------------------------------------------ audit seam
 
-_AUD = {"on": False, "log": [], "installed": False}
+_AUD = {"on": False, "log": [], "installed": False, "fault": None}
 _CUR = {}
+
+# ---- refusal fault: the kernel refuses ONE filesystem call that the session makes on a path inside the root (disk full, quota, read-only
+# remount, permission, I/O error, name too long, descriptor table full, an entry that another process created / removed in between).
+# The audit hook is the seam: a hook that raises aborts the audited call with that exception, exactly where the system call would fail.
+REFUSAL_CLASS = {"open": "open", "os.listdir": "list", "os.scandir": "list", "os.mkdir": "mkdir", "os.rmdir": "rmdir", "os.remove": "remove",
+                 "os.rename": "rename"}
+REFUSAL_CLASSES = ["any", "mkdir", "open", "rmdir", "remove", "rename", "list"]
+REFUSAL_ERRNOS = ["ENOSPC", "EACCES", "EIO", "EROFS", "EDQUOT", "ENAMETOOLONG", "EPERM", "EBUSY", "EMFILE", "ENOENT", "EEXIST"]
+REFUSAL_P = 0.2
+
+
+def _refusal(event, paths):
+    """The exception to abort this audited call with, or None.  Only calls on paths inside the root are counted, so what the
+    interpreter does on its own behalf (imports, source lines) neither shifts the count nor is ever refused."""
+    f = _AUD["fault"]
+    if f is None or f["fired"]:
+        return None
+    cls = REFUSAL_CLASS.get(event)
+    if cls is None or f["cls"] not in ("any", cls):
+        return None
+    if not any(M.inside(f["root"], M.norm(p)) for p in paths):
+        return None
+    f["seen"] += 1
+    if f["seen"] < f["k"]:
+        return None
+    f["fired"] = cls
+    return OSError(f["errno"], os.strerror(f["errno"]), paths[0])
 
 _SUT_FILES = ("twisted/protocols/ftp.py", "twisted/python/filepath.py")
 _INTERNAL_MARKS = ("importlib", "/logging/", "linecache.py", "tokenize.py", "traceback.py", "warnings.py", "zipimport.py", "pkgutil.py")
@@ -177,6 +223,7 @@ def _readonly(event, args):
 def _hook(event, args):
     if not _AUD["on"]:
         return
+    refuse = None
     try:
         n = AUDITED.get(event)
         if n is None:
@@ -191,8 +238,12 @@ def _hook(event, args):
                 paths.append(a)
         if paths:
             _AUD["log"].append((event, paths, _attributed(), _readonly(event, args)))
-    except Exception:       # an audit hook must never raise into the code under test
+            if _AUD["fault"] is not None:
+                refuse = _refusal(event, paths)
+    except Exception:       # an audit hook must never raise into the code under test ...
         pass
+    if refuse is not None:  # ... except for the one injected refusal of a call inside the root
+        raise refuse
 
 
 def _install_hook():
@@ -215,10 +266,17 @@ GATE = _Gate()
 
 # ------------------------------------------------------------------ scratch tree
 
+# What the root holds when the session starts (index 0 = the fully populated tree).  The client's script names the same
+# directories and files whatever is there: on a sparse or empty root most of them are simply missing, MKD/STOR of a nested name
+# creates its intermediate directories, and whatever empties a directory leaves its ancestors - up to the root itself - empty.
+POPULATIONS = [("full", 14), ("chain", 2), ("onefile", 1), ("empty", 3)]
+
+
 class Scratch:
     """parent/ (random name, never logged)
          secret.txt  unl1sted_p      <- must stay untouched
-         <root>/ ...                  <- the shell's root
+         <root>/ ...                  <- the shell's root: fully populated / a chain of empty directories a/b/c /
+                                         one file / empty (fresh account, emptied upload area)
          <root><suffix>/ hidden.txt unl1sted_s   <- sibling whose name has the root's name as a prefix
     """
 
@@ -226,6 +284,7 @@ class Scratch:
         self.rootname = sim.draw_choice(["pub", "r", "data.d"], "rootname")
         self.sibname = self.rootname + sim.draw_choice(["2", "-old", ".bak", "lic"], "sibsuffix")
         self.dup_inside = sim.draw_bool(0.5, "dup_inside")
+        self.population = sim.draw_weighted(POPULATIONS, "population")
         self.parent = None
         self.root = None
 
@@ -240,9 +299,18 @@ class Scratch:
         if self.dup_inside:
             self.dirs.append([self.sibname])
             self.files.append([self.sibname, "hidden.txt"])
-        for d in self.dirs:
+        # self.dirs / self.files: the names the client knows; self.present_*: what exists when the session starts
+        if self.population == "full":
+            self.present_dirs, self.present_files = list(self.dirs), list(self.files)
+        elif self.population == "chain":
+            self.present_dirs, self.present_files = self.dirs[:4], []
+        elif self.population == "onefile":
+            self.present_dirs, self.present_files = self.dirs[:1], self.files[:1]
+        else:
+            self.present_dirs, self.present_files = self.dirs[:1], []
+        for d in self.present_dirs:
             os.makedirs(os.path.join(self.root, *d), exist_ok=True)
-        for f in self.files:
+        for f in self.present_files:
             with open(os.path.join(self.root, *f), "wb") as fh:
                 fh.write(b"big" * 1700 if f[-1] == "big.bin" else ("inside:" + "/".join(f)).encode("utf-8"))
         os.mkdir(self.sib)
@@ -285,7 +353,9 @@ class Scratch:
                     with open(p, "rb") as fh:
                         out[self.rel(p)] = ("file", os.lstat(p).st_mode & 0o7777, fh.read())
         out["<parent>"] = ("dir", os.lstat(self.parent).st_mode & 0o7777, None)
-        out["<rootentry>"] = ("link" if os.path.islink(self.root) else "dir" if os.path.isdir(self.root) else "missing", 0, None)
+        # the root's own directory entry is "the root": a session that removes its (emptied) root, or puts something else there, has
+        # not touched anything outside it; only a link appearing under that name would redirect the whole tree
+        out["<rootentry>"] = ("link" if os.path.islink(self.root) else "not-a-link", 0, None)
         return out
 
     def destroy(self):
@@ -296,6 +366,7 @@ class Scratch:
 
 def _teardown():
     _AUD["on"] = False
+    _AUD["fault"] = None
     del _AUD["log"][:]
     env = _CUR.pop("env", None)
     if env is not None:
@@ -587,7 +658,7 @@ class Gen:
         elif k == "new":
             self.newn += 1
             d = sim.draw_choice(self.dirs, "newdir")
-            s = self._express(d + ["n%d" % self.newn])
+            s = self._express(d + self._new_names())
         else:
             if want == "dir" or (want in ("any", "new") and sim.draw_bool(0.4, "wantdir")):
                 s = self._express(sim.draw_choice(self.dirs, "dir"))
@@ -601,9 +672,27 @@ class Gen:
                 self.sim.probe("sibling_named_via_dotdot")
         return s
 
+    def _new_names(self):
+        """The not yet existing tail of a new path: one fresh name; or fresh intermediate directories in front of it (the server
+        has to create them first); or a last component longer than NAME_MAX / a path longer than PATH_MAX (the file system refuses it
+        with ENAMETOOLONG - after the intermediate directories have been made, where there are any)."""
+        sim = self.sim
+        shape = sim.draw_weighted([("plain", 40), ("nested", 10), ("overlong", 2), ("nested_overlong", 3), ("beyond_path_max", 1)], "newshape")
+        names = ["n%d" % self.newn]
+        if shape in ("nested", "nested_overlong"):
+            names = ["m%d" % self.newn, "k", "k2"][:sim.draw_int(1, 3, "newdepth")] + names
+            sim.probe("new_name_below_new_directories")
+        if shape in ("overlong", "nested_overlong"):
+            names[-1] = "L" * sim.draw_choice([256, 300], "namelen")
+            sim.probe("new_name_longer_than_name_max")
+        if shape == "beyond_path_max":
+            names = ["D%d" % self.newn + "d" * 240] * 18
+            sim.probe("new_path_longer_than_path_max")
+        return names
+
     def note_cwd(self, arg):
         segs, escaped = M.walk(self.cwd, arg)
-        if not escaped and segs in self.dirs:
+        if not escaped and segs in self.env.present_dirs:
             self.cwd = segs
 
 
@@ -784,6 +873,13 @@ class Session:
         calls, self.shell_calls = self.shell_calls, []
         for method, segs in calls:
             sim.event("shell", method, repr(segs))
+        f = _AUD["fault"]
+        if f is not None and f["fired"] and not f["reported"]:
+            f["reported"] = True
+            sim.fault("os_refusal:" + f["fired"])
+            sim.event("os-refused", f["fired"], f["errname"])
+            if env.population != "full":
+                sim.probe("os_refusal_on_sparse_root")
         check_audit(sim, env)
         for method, segs in calls:
             # instrumentation only (no verdict): did the protocol layer hand its shell a segment list that, applied textually to the root, leaves it?
@@ -1252,15 +1348,26 @@ def run(sim):
                 "loss_at": sim.draw_int(1, 80, "loss_at") if sim.draw_bool(0.15, "ctrl_loss") else None,
                 "host": sim.draw_weighted([("v4", 10), ("mapped", 1), ("v6", 1)], "host"),
                 "ascii": sim.draw_bool(ASCII_P, "ascii"),
-                "rootname": env.rootname, "sibling": env.sibname, "dup_inside": env.dup_inside,
+                "rootname": env.rootname, "sibling": env.sibname, "dup_inside": env.dup_inside, "population": env.population,
+                "os_refusal": None,
             }
+            if sim.draw_bool(REFUSAL_P, "os_refusal"):
+                # the k-th call of the drawn class on a path inside the root is refused by the "kernel" with the drawn errno
+                cfg["os_refusal"] = [sim.draw_choice(REFUSAL_CLASSES, "refusal_class"), sim.draw_int(1, 4, "refusal_k"),
+                                     sim.draw_choice(REFUSAL_ERRNOS, "refusal_errno")]
+                cls, k, errname = cfg["os_refusal"]
+                _AUD["fault"] = {"cls": cls, "k": k, "errno": getattr(errno, errname), "errname": errname, "root": env.root,
+                                 "seen": 0, "fired": None, "reported": False}
             sim.config = cfg
+            sim.probe("root_population:" + env.population)
             _CUR["chunk"] = basic.FileSender.CHUNK_SIZE
             basic.FileSender.CHUNK_SIZE = cfg["chunk"]
             Session(sim, env, cfg).run()
         else:
             run_shell(sim, env)
         _AUD["on"] = False
+        if not os.path.lexists(env.root):
+            sim.probe("root_itself_removed_by_session_no_verdict")     # e.g. 'RMD /' on an empty root: the root is not outside the root
         after = env.snapshot()
         if before != after:
             changed = sorted(k for k in set(before) | set(after) if before.get(k) != after.get(k))
@@ -1307,6 +1414,15 @@ MUTANTS = [
     "R5 same with the segment split at backslashes late ('..\\', '\\..') -> caught fs-confined:open:sibling / os.listdir:sibling / os.rmdir:sibling (500 runs)",
     "R6 same with control characters (< 0x20, 0x7f) removed late -> caught fs-confined:open:sibling / os.listdir:sibling / os.rmdir:sibling (400 runs)",
     "R7 same with s.rstrip('. ') or s (a '..' followed by dots/blanks collapses to the empty string and falls back to the literal name) -> survives, correctly: no parent reference is produced",
+    # ---- round 4: clean-up / fallback code that runs after a FAILED or emptying operation and is not bounded by the root.  Needs the sparse / empty root populations
+    #      (root_population:* probes) and a failing call (natural ENAMETOOLONG from over-long new names, or the injected os_refusal:* fault)
+    "F1 ftp.py FTPShell.makeDirectory: on OSError other than EEXIST, os.removedirs(p.parent().path) 'tidies up' the intermediate directories (seed C54-r4b) -> caught "
+    "fs-confined:os.rmdir:parent within 1300-3700 runs (empty root + MKD refused with ENOSPC/..., or MKD of an over-long name: removedirs empties root and goes on with its parent); "
+    "caught as well with the refusal fault switched off (ENAMETOOLONG route alone, 3550 runs) ; missed before the populations existed (the full root stops removedirs inside the root)",
+    "F2 ftp.py FTPShell.removeDirectory: os.removedirs(p.path) instead of os.rmdir (prunes emptied parents) -> caught fs-confined:os.rmdir:parent (2150 runs; chain / empty populations)",
+    "F3 ftp.py FTPShell.removeFile: after p.remove(), os.removedirs(p.parent().path) (errors swallowed) -> caught fs-confined:os.rmdir:parent (3450 runs; one-file population, or STOR then DELE on an empty root)",
+    "F4 ftp.py FTPShell.openForWriting: on ENOSPC/EROFS/EDQUOT the upload is spooled into filesystemRoot.sibling('spool-'+name) -> caught fs-confined:open:other (2200 runs; needs os_refusal:open)",
+    "F5 ftp.py FTPShell.removeDirectory: on EBUSY the directory is renamed to filesystemRoot.sibling('.trash') -> caught fs-confined:os.rename:other (2100 runs; needs os_refusal:rmdir)",
     # ---- one layer broken, the other still confines: property holds, instrumentation reports it
     "M1 toSegments: '..' at depth 0 appended instead of InvalidPath -> masked (FilePath.child raises InsecurePath -> 550); ftp_layer_passed_unconfined_segments_no_verdict = 41030",
     "M1b toSegments: '..' at depth 0 silently ignored -> equivalent for C54 (stays in the root); no probe",
